@@ -321,17 +321,54 @@ func (g gInfo) xml() string {
 
 type recHash struct {
 	hash.Hash
-	rec []byte
+	rec    []byte
+	writes int // number of Write calls
+	sums   int // number of Sum calls
+	sumAt  int // len(rec) at the first Sum
+	late   int // bytes written after the first Sum
+	resets int
 }
 
 func (r *recHash) Write(p []byte) (int, error) {
 	r.rec = append(r.rec, p...)
+	r.writes++
+	if r.sums > 0 {
+		r.late += len(p)
+	}
 	return r.Hash.Write(p)
+}
+
+func (r *recHash) Sum(b []byte) []byte {
+	if r.sums == 0 {
+		r.sumAt = len(r.rec)
+	}
+	r.sums++
+	return r.Hash.Sum(b)
+}
+
+func (r *recHash) Reset() {
+	r.resets++
+	r.Hash.Reset()
+}
+
+// protocol: how the hash was used besides the bytes it was given ("" = written, then
+// summed, nothing after, never reset)
+func (r *recHash) protocol() string {
+	switch {
+	case r.resets > 0:
+		return "reset"
+	case r.sums == 0:
+		return "never-summed"
+	case r.late > 0:
+		return "written-after-sum"
+	}
+	return ""
 }
 
 type result struct {
 	pre      []byte // bytes written to the hash
 	out      string // Hash's result
+	proto    string // recHash.protocol()
 	panicked string
 	err      string
 }
@@ -354,7 +391,7 @@ func runHash(i disco.Info, h stdcrypto.Hash) (res result) {
 	}()
 	rh := &recHash{Hash: h.New()}
 	out := i.Hash(rh)
-	return result{pre: rh.rec, out: out}
+	return result{pre: rh.rec, out: out, proto: rh.protocol()}
 }
 
 func runAppend(i disco.Info, h stdcrypto.Hash, dst []byte, spare int) (out []byte, pre []byte, panicked string) {
@@ -505,6 +542,203 @@ func identitiesDistinct(g gInfo) bool {
 	return true
 }
 
+
+// clip quotes a string for a report, eliding the middle of a long one.
+func clip(s string) string {
+	if len(s) <= 160 {
+		return fmt.Sprintf("%q", s)
+	}
+	return fmt.Sprintf("%q...(%d bytes)...%q", s[:60], len(s)-120, s[len(s)-60:])
+}
+
+// firstDiff names the first offset at which two strings differ.
+func firstDiff(got, want string) string {
+	n := 0
+	for n < len(got) && n < len(want) && got[n] == want[n] {
+		n++
+	}
+	if n == len(got) && n == len(want) {
+		return ""
+	}
+	tail := func(s string) string {
+		if len(s)-n > 24 {
+			return s[n : n+24]
+		}
+		return s[n:]
+	}
+	return fmt.Sprintf(" (first difference at offset %d of %d/%d: got %q, want %q)", n, len(got), len(want), tail(got), tail(want))
+}
+
+// size is the number of bytes XEP-0115 5.1 makes of the info whatever the order: every
+// hashed string once plus one separator each (theorem C20_length).
+func (g gInfo) size() int {
+	n := 0
+	for _, i := range g.ids {
+		n += len(i.cat) + len(i.typ) + len(i.lang) + len(i.name) + 4
+	}
+	for _, f := range g.feats {
+		n += len(f) + 1
+	}
+	for _, f := range g.forms {
+		n += len(f.formType()) + 1
+		for _, fd := range f.fields {
+			if fd.vr == formType {
+				continue
+			}
+			n += len(fd.vr) + 1
+			for _, v := range fd.vals {
+				n += len(v) + 1
+			}
+		}
+	}
+	return n
+}
+
+// ---- the size dimension ------------------------------------------------------------------
+//
+// Every string that takes part in the hash (the four attributes of an identity, a feature,
+// a FORM_TYPE value, a field name, a field value) is a position; sized infos put strings
+// whose length sits on and around the powers of two (buffer and block sizes: 16 ... 64 Ki)
+// at one position, at two positions, or at all of them, while everything around stays
+// short - so bytes are pending before and after the long string.
+
+func (g gInfo) clone() gInfo {
+	o := gInfo{ids: append([]gIdent(nil), g.ids...), feats: append([]string(nil), g.feats...)}
+	for _, f := range g.forms {
+		nf := gForm{}
+		for _, fd := range f.fields {
+			nf.fields = append(nf.fields, gField{vr: fd.vr, typ: fd.typ, vals: append([]string(nil), fd.vals...)})
+		}
+		o.forms = append(o.forms, nf)
+	}
+	return o
+}
+
+// atoms returns a pointer to every hashed string of g and a name for the kind of position.
+func (g *gInfo) atoms() (ps []*string, kinds []string) {
+	add := func(p *string, k string) { ps = append(ps, p); kinds = append(kinds, k) }
+	for k := range g.ids {
+		add(&g.ids[k].cat, "category")
+		add(&g.ids[k].typ, "type")
+		add(&g.ids[k].lang, "lang")
+		add(&g.ids[k].name, "name")
+	}
+	for k := range g.feats {
+		add(&g.feats[k], "feature")
+	}
+	for k := range g.forms {
+		for m := range g.forms[k].fields {
+			fd := &g.forms[k].fields[m]
+			if fd.vr == formType {
+				for v := range fd.vals {
+					add(&fd.vals[v], "form-type")
+				}
+				continue
+			}
+			add(&fd.vr, "var")
+			for v := range fd.vals {
+				add(&fd.vals[v], "value")
+			}
+		}
+	}
+	return
+}
+
+// sizedString: n bytes that survive XML, differ from position to position (tag) and
+// carry their own offsets, so a moved, split or truncated piece shows in the bytes.
+func sizedString(n int, tag int) string {
+	var b strings.Builder
+	for b.Len() < n {
+		fmt.Fprintf(&b, "%c%d.", 'g'+byte(tag%20), b.Len())
+	}
+	return b.String()[:n]
+}
+
+func sizeTemplate() gInfo {
+	return gInfo{
+		ids:   []gIdent{{"client", "pc", "en", "n1"}, {"client", "phone", "", "n2"}},
+		feats: []string{"urn:f1", "urn:f2"},
+		forms: []gForm{
+			{fields: []gField{{formType, "hidden", []string{"urn:t1"}}, {"os", "", []string{"Mac"}}, {"ip", "list-multi", []string{"v4", "v6"}}}},
+			{fields: []gField{{"note", "text-multi", []string{"l1", "l2"}}, {formType, "hidden", []string{"urn:t2"}}, {"x", "text-single", []string{"1"}}}},
+		},
+	}
+}
+
+// boundaries: lengths on and next to the powers of two from lo to hi.
+func boundaries(lo, hi int) []int {
+	var l []int
+	for p := lo; p <= hi; p *= 2 {
+		l = append(l, p-1, p, p+1)
+	}
+	return l
+}
+
+func (c *ctx) sizes() {
+	r := c.r
+	t := sizeTemplate()
+	_, kinds := t.atoms()
+	one := boundaries(16, r.Pick(4096, 65536))
+	n := 0
+	// one long string at every position x every boundary length
+	for p := range kinds {
+		for _, sz := range one {
+			g := t.clone()
+			ps, _ := g.atoms()
+			*ps[p] = sizedString(sz, p)
+			c.info(g, "sized-"+kinds[p], 1)
+			n++
+		}
+	}
+	// two long strings (every pair of positions; the second may or may not fit what the first left)
+	pairSizes := [][2]int{{257, 300}, {100, 200}, {4097, 129}, {64, 65}}
+	for p := range kinds {
+		for q := p + 1; q < len(kinds); q++ {
+			if r.Quick() && (p*31+q*17+int(r.Seed))%6 != 0 {
+				continue
+			}
+			for _, sz := range pairSizes {
+				g := t.clone()
+				ps, _ := g.atoms()
+				*ps[p], *ps[q] = sizedString(sz[0], p), sizedString(sz[1], q)
+				c.info(g, "sized-pair", 1)
+				n++
+			}
+		}
+	}
+	// every position long at once, and a single-item info that is nothing but one long string
+	for _, sz := range boundaries(32, r.Pick(1024, 8192)) {
+		g := t.clone()
+		ps, _ := g.atoms()
+		for p := range ps {
+			*ps[p] = sizedString(sz+p%3-1, p)
+		}
+		c.info(g, "sized-all", 1)
+		c.info(gInfo{feats: []string{sizedString(sz, 0)}}, "sized-alone", 0)
+		c.info(gInfo{forms: []gForm{{fields: []gField{{"v", "text-multi", []string{"a", sizedString(sz, 1), "b"}}}}}}, "sized-alone", 1)
+		n += 3
+	}
+	// many short strings adding up to the same totals
+	for _, total := range boundaries(64, r.Pick(2048, 16384)) {
+		var g gInfo
+		for k := 0; g.size() < total; k++ {
+			g.feats = append(g.feats, sizedString(1+k%7, k))
+		}
+		c.info(g, "sized-total", 1)
+		n++
+	}
+	// both entry points and every hash function on a few of them
+	for _, sz := range []int{255, 256, 257, 1000, 5000} {
+		for _, p := range []int{3, 8, len(kinds) - 1} {
+			g := t.clone()
+			ps, _ := g.atoms()
+			*ps[p] = sizedString(sz, p)
+			c.entryPoints(g, []byte("ab"))
+		}
+	}
+	r.Exhaustive = append(r.Exhaustive, fmt.Sprintf("size dimension: one string of every length 2^k-1, 2^k, 2^k+1 (16 <= 2^k <= %d) at each of the %d positions of a template info (identity attributes, features, FORM_TYPE values, field names, field values), pairs of positions, all positions, one-string infos, totals made of short strings: %d infos, each constructed, decoded from XML and rearranged", r.Pick(4096, 65536), len(kinds), n))
+}
+
 // ---- the oracle ----------------------------------------------------------------------------
 
 type ctx struct{ r *common.Run }
@@ -586,12 +820,18 @@ func (c *ctx) one(g gInfo, how string, class string) (result, []string) {
 	default:
 		if want := refVer(g); string(res.pre) != want && (identitiesDistinct(g)) {
 			r.Fail("equals-spec", specKey(g, res.pre), lines,
-				fmt.Sprintf("hashed %q, XEP-0115 5.1 gives %q", res.pre, want))
+				fmt.Sprintf("hashed %s, XEP-0115 5.1 gives %s%s", clip(string(res.pre)), clip(want), firstDiff(string(res.pre), want)))
 		}
 		sum := stdcrypto.SHA1.New()
 		sum.Write(res.pre)
 		if want := base64.StdEncoding.EncodeToString(sum.Sum(nil)); res.out != want {
-			r.Fail("hash-append", "hash-output", lines, fmt.Sprintf("Hash returned %q, base64(sha1(written)) = %q", res.out, want))
+			r.Fail("hash-append", "hash-output", lines, fmt.Sprintf("Hash returned %q, base64(sha1(written)) = %q", clip(res.out), want))
+		}
+		if res.proto != "" {
+			r.Fail("hash-append", "hash-protocol-"+res.proto, lines, "the hash passed to Hash was "+res.proto+" (bytes left in a buffer, or the caller's hash state thrown away)")
+		}
+		if n := g.size(); len(res.pre) != n {
+			r.Fail("equals-spec", "length", lines, fmt.Sprintf("%d bytes hashed, the items of the info and their separators have %d", len(res.pre), n))
 		}
 	}
 	return res, lines
@@ -704,7 +944,7 @@ func (c *ctx) info(g gInfo, class string, nperm int) {
 	if xmlOK(g) {
 		x, xl := c.one(g, "xml", class+"-xml")
 		if base.panicked == "" && x.panicked == "" && x.err == "" && !bytes.Equal(base.pre, x.pre) {
-			r.Fail("equals-spec", "constructed-vs-decoded", append(lines, xl...), fmt.Sprintf("constructed value hashed %q, decoded value %q", base.pre, x.pre))
+			r.Fail("equals-spec", "constructed-vs-decoded", append(lines, xl...), fmt.Sprintf("constructed value hashed %s, decoded value %s", clip(string(base.pre)), clip(string(x.pre))))
 		}
 	}
 	if base.panicked != "" || !wellFormed(g) {
@@ -721,7 +961,7 @@ func (c *ctx) info(g gInfo, class string, nperm int) {
 		}
 		res, ol := c.one(o, "ctor", "perm-"+lv.name)
 		if res.panicked == "" && !bytes.Equal(res.pre, base.pre) {
-			r.Fail("perm-invariant", lv.name, append(lines, ol...), fmt.Sprintf("hashed %q, rearranged %s: %q", base.pre, lv.name, res.pre))
+			r.Fail("perm-invariant", lv.name, append(lines, ol...), fmt.Sprintf("hashed %s, rearranged %s: %s%s", clip(string(base.pre)), lv.name, clip(string(res.pre)), firstDiff(string(res.pre), string(base.pre))))
 		}
 	}
 	for k := 0; k < nperm; k++ {
@@ -735,7 +975,7 @@ func (c *ctx) info(g gInfo, class string, nperm int) {
 		}
 		res, ol := c.one(o, how, "perm-all")
 		if res.panicked == "" && res.err == "" && !bytes.Equal(res.pre, base.pre) {
-			r.Fail("perm-invariant", "all", append(lines, ol...), fmt.Sprintf("hashed %q, rearranged: %q", base.pre, res.pre))
+			r.Fail("perm-invariant", "all", append(lines, ol...), fmt.Sprintf("hashed %s, rearranged: %s%s", clip(string(base.pre)), clip(string(res.pre)), firstDiff(string(res.pre), string(base.pre))))
 		}
 	}
 }
@@ -768,6 +1008,10 @@ var words = []string{"", "a", "b", "ab", "a<", "<", "a/b", "/", "urn:x", "http:/
 
 func (c *ctx) word() string {
 	rnd := c.r.Rnd
+	if rnd.Chance(1, 60) {
+		// the size dimension inside random infos: around a power of two, 16 ... 4096
+		return sizedString((16<<rnd.Intn(9))+rnd.Intn(5)-2, rnd.Intn(20))
+	}
 	switch rnd.Intn(8) {
 	case 0:
 		n := rnd.Intn(6)
@@ -932,6 +1176,8 @@ func Run(r *common.Run) error {
 		c.info(g, "corpus", 4)
 		c.entryPoints(g, []byte("ab"))
 	}
+
+	c.sizes()
 
 	// identities with equal (category, type, lang) but different names: well formed per
 	// XEP-0115 5.4 (only identical 4-tuples are ill-formed), order left open by 5.1; the code
